@@ -686,7 +686,8 @@ class LabReplay:
                             self.report("C10", "get_concentration_raises", dict(key, units=text, kind=KIND[s], exc=type(ex).__name__),
                                         f"{out.call}: {n}.get_concentration({s}, {text!r}) raised {type(ex).__name__}: {ex}", ev, ctx["pre_key"])
                             return
-                        if abs(got - e) > 1e-7 * abs(e) + 2 * self.P.quantum:
+                        den_base = den * float(inst.base_scale(du))      # the denominator in base units: get_volume() rounds it to a quantum
+                        if abs(got - e) > (1e-7 + 2 * self.P.quantum / den_base) * abs(e) + 2 * self.P.quantum:
                             self.report("C10", "get_concentration", dict(key, units=text, kind=KIND[s]),
                                         f"{out.call}: {n}.get_concentration({s}, {text!r}) = {got!r}, contents give {e!r}", ev, ctx["pre_key"])
                             return
@@ -1068,7 +1069,7 @@ class LabReplay:
                 if abs(got - float(t)) > self.conc_tol(t, ev["nu"][i], ev["du"][i]) * abs(float(t)) * (10 if n >= 2 else 1):
                     self.report("C05", "concentration_not_met", key, f"{out.call}: concentration of {s} is {got!r} model units, stated {float(t)!r}", ev, ctx["pre_key"])
                     return
-        if ev["given"] in ("cq", "qt"):
+        if ev["given"] in ("cq", "qt") and self.solution_acceptance_asserted(ev):
             for i, s in enumerate(ev["solutes"]):
                 # the solvent container may itself contribute solute; the stated quantity is what was added
                 extra = 0.0
